@@ -396,12 +396,15 @@ class TextXVisitor(RRELVisitor):
     def _resolve_rule_refs(self, grammar_parser, model_parser):
         """Resolves parser ParsingExpression crossrefs."""
 
-        def _resolve_rule(rule):
+        def _resolve_rule(rule, alias_chain=()):
             """
             Recursively resolve peg rule references.
 
             Args:
                 rule(ParsingExpression or RuleCrossRef)
+                alias_chain(tuple): names of the rules whose bodies are a
+                    single rule reference and that are being followed to
+                    reach this reference.
             """
             if not isinstance(rule, RuleCrossRef) and rule in resolved_rules:
                 return rule
@@ -416,7 +419,16 @@ class TextXVisitor(RRELVisitor):
                 if rule_name in model_parser.metamodel:
                     rule = model_parser.metamodel[rule_name]._tx_peg_rule
                     if isinstance(rule, RuleCrossRef):
-                        rule = _resolve_rule(rule)
+                        if rule_name in alias_chain:
+                            line, col = grammar_parser.pos_to_linecol(rule.position)
+                            raise TextXSemanticError(
+                                f'Circular definition of rule "{rule_name}" '
+                                f"at position {(line, col)}.",
+                                line,
+                                col,
+                                filename=model_parser.metamodel.file_name,
+                            )
+                        rule = _resolve_rule(rule, (*alias_chain, rule_name))
                         model_parser.metamodel[rule_name]._tx_peg_rule = rule
                     if suppress:
                         # Special case. Suppression on rule reference.
